@@ -94,6 +94,12 @@ def check(spec, tier, res):
         v("dims", f"advertised (n,k,r)=({n_adv},{k_adv},{enc.redundancy}) but the encoder produces an [{n_true},{k_true}] code")
     if abs(float(enc.code_rate) - k_true / n_true) > 1e-12:
         v("rate", f"code_rate={enc.code_rate} but k/n={k_true}/{n_true}")
+    # --- a named standard code advertises its length and dimension in its name: "X(n,k)"
+    if "name" in prm:
+        import re
+        mm = re.search(r"\((\d+),\s*(\d+)\)", prm["name"])
+        if mm and (int(mm.group(1)), int(mm.group(2))) != (n_true, k_true):
+            v("dims", f"create_standard_code('{prm['name']}') produces an [{n_true},{k_true}] code")
     # --- true minimum distance
     lim = 22 if tier == "quick" else 26
     d = gf2.min_distance(basis, n_true, limit=lim) if n_true <= 64 else None
